@@ -98,6 +98,7 @@ type machine struct {
 	sumCache  map[*ssa.Function]bool
 	sumDefs   map[*ssa.Function]*sumDef
 	foldCache map[*ssa.BasicBlock]*foldRegion
+	xmlInfo   map[types.Type]*xmlTypeInfo
 
 	// statistics
 	st stats
